@@ -166,6 +166,15 @@ impl<'a> Ctx<'a> {
                     self.ambiguous = Some(format!("divergence test: joint {joint} within {tol:e} of slice level - 1000"));
                 }
             }
+            // a leaf closer to the support boundary (NaN region, cliff) than the position tolerance: the
+            // library's point may lie on the other side, where the energy is -inf / NaN
+            if self.ambiguous.is_none() && !self.exact {
+                let bd = self.t.boundary_distance(&q.x);
+                let pt = self.pos_tol(&q);
+                if bd <= pt {
+                    self.ambiguous = Some(format!("leaf within {pt:e} of the support boundary (distance {bd:e})"));
+                }
+            }
             let n = (self.logu < joint) as usize;
             let s = (self.logu - 1000.0) < joint;
             // a leaf of undefined (NaN) energy is a rejection: it contributes 0 to the statistic
